@@ -4,6 +4,7 @@ import (
 	"fmt"
 	"gorgonia.org/tensor"
 	"reflect"
+	"strings"
 
 	"verifharness/core"
 	"verifharness/gen"
@@ -145,6 +146,9 @@ func c16Elementwise(c *core.Ctx, fam, op string) {
 			for _, mode := range modes {
 				if (mode == "reuseB" || mode == "incrB") && form != "TT" {
 					continue
+				}
+				if strings.HasSuffix(mode, "-othertype") {
+					continue // destinations of another element type are C07's
 				}
 				if (mode == "incr" || mode == "incrB") && (op == "MinBetween" || op == "MaxBetween") {
 					continue
